@@ -106,6 +106,20 @@ func (s *Sched) Yield(site int) {
 	s.handback(t)
 }
 
+// Atomic runs f without scheduling points: harness code that runs on a task
+// goroutine (taking a snapshot, observing a result) must not hand the baton
+// over in the middle. On the scheduler goroutine it just calls f.
+func (s *Sched) Atomic(f func()) {
+	t := s.cur
+	if t == nil {
+		f()
+		return
+	}
+	s.cur = nil
+	defer func() { s.cur = t }()
+	f()
+}
+
 // Block parks the calling task until cond() holds (evaluated on the
 // scheduler goroutine).
 func (s *Sched) Block(cond func() bool) {
